@@ -337,6 +337,9 @@ for _p in ('C13', 'C15', 'C16'):
 for _p in ('C13', 'C01', 'C18'):
     PROPS[_p]['contracts'] = PROPS[_p]['contracts'] + [(TG, 'type.univ::Any.tagMap')]
 PROPS['C13']['contracts'] = PROPS['C13']['contracts'] + TAGS
+# segmented strings: every segment carries the string type's base tag, whatever tags the value has (C13-m7b)
+PROPS['C13']['contracts'] = PROPS['C13']['contracts'] + [(E, 'ber.encoder::OctetStringEncoder.encodeValue[value-object]'),
+                                                       (E, 'ber.encoder::BitStringEncoder.encodeValue[value-object]')]
 PROPS['C13']['level_text'] = ('Identifier octets equal X.690 8.1.2 for every class/format/number (encodeTag) and are parsed back by '
                               'the tag region of the decoder (any long form, base-128 value, cache invariant); one header per tag from '
                               'innermost to outermost with the constructed bit for wrappers and constructed content only (iteration '
